@@ -105,6 +105,12 @@ CHECKS = {
         "Trusted: reference evaluator, RealProcessor; 'result lives in the preferred engine' read together with 'transfer only if backtracking fails' (DESIGN 3 C03).",
         "DESIGN.md 3 C03",
     ),
+    "C15": (
+        "explicit-state BFS over transfer/materialization chains among three engines with every preferred-engine call on top; identity of locked nodes",
+        "Every program over transfers among three engines, two materializations and a few operations up to the base depth, with every menu operation under every preferred-engine option applied on top: self-transfers return the identical object, transfer chains keep Processor-evaluated content in the requested engine, materialized() of locked relations adds no node, and every locked node of the input tree that reappears (by equality or by name) in the output is the identical object with the identical upstream; parents are processed first so payload sharing is observable.",
+        "Trusted: library dataclass equality vs Python identity; RealProcessor; reference evaluator.",
+        "DESIGN.md 3 C15",
+    ),
 }
 
 NOT_YET = "check not built yet in this revision (planned, see DESIGN.md section 3)"
